@@ -297,8 +297,9 @@ const ODD_VALUES: [&str; 11] = [
   "\u{e9}\u{4e2d}\u{1F600}\u{e9}\u{4e2d}\u{1F600}\u{e9}\u{4e2d}\u{1F600}\u{e9}\u{4e2d}\u{1F600}\u{e9}\u{4e2d}\u{1F600}\u{e9}\u{4e2d}\u{1F600}\u{e9}\u{4e2d}\u{1F600}\u{e9}\u{4e2d}\u{1F600}\u{e9}\u{4e2d}\u{1F600}\u{e9}\u{4e2d}\u{1F600}\u{e9}\u{4e2d}\u{1F600}\u{e9}\u{4e2d}\u{1F600}\u{e9}\u{4e2d}\u{1F600}\u{e9}\u{4e2d}\u{1F600}\u{e9}\u{4e2d}\u{1F600}\u{e9}\u{4e2d}\u{1F600}\u{e9}\u{4e2d}\u{1F600}\u{e9}\u{4e2d}\u{1F600}\u{e9}\u{4e2d}\u{1F600}\u{e9}\u{4e2d}\u{1F600}\u{e9}\u{4e2d}\u{1F600}\u{e9}\u{4e2d}\u{1F600}\u{e9}\u{4e2d}\u{1F600}\u{e9}\u{4e2d}\u{1F600}\u{e9}\u{4e2d}\u{1F600}\u{e9}\u{4e2d}\u{1F600}\u{e9}\u{4e2d}\u{1F600}\u{e9}\u{4e2d}\u{1F600}\u{e9}\u{4e2d}\u{1F600}\u{e9}\u{4e2d}\u{1F600}\u{e9}\u{4e2d}\u{1F600}\u{e9}\u{4e2d}\u{1F600}\u{e9}\u{4e2d}\u{1F600}\u{e9}\u{4e2d}\u{1F600}",
   "a\u{e9}\u{4e2d}\u{1F600}\u{e9}\u{4e2d}\u{1F600}\u{e9}\u{4e2d}\u{1F600}\u{e9}\u{4e2d}\u{1F600}\u{e9}\u{4e2d}\u{1F600}\u{e9}\u{4e2d}\u{1F600}\u{e9}\u{4e2d}\u{1F600}\u{e9}\u{4e2d}\u{1F600}\u{e9}\u{4e2d}\u{1F600}\u{e9}\u{4e2d}\u{1F600}\u{e9}\u{4e2d}\u{1F600}\u{e9}\u{4e2d}\u{1F600}\u{e9}\u{4e2d}\u{1F600}\u{e9}\u{4e2d}\u{1F600}\u{e9}\u{4e2d}\u{1F600}\u{e9}\u{4e2d}\u{1F600}\u{e9}\u{4e2d}\u{1F600}\u{e9}\u{4e2d}\u{1F600}\u{e9}\u{4e2d}\u{1F600}\u{e9}\u{4e2d}\u{1F600}\u{e9}\u{4e2d}\u{1F600}\u{e9}\u{4e2d}\u{1F600}\u{e9}\u{4e2d}\u{1F600}\u{e9}\u{4e2d}\u{1F600}\u{e9}\u{4e2d}\u{1F600}\u{e9}\u{4e2d}\u{1F600}\u{e9}\u{4e2d}\u{1F600}\u{e9}\u{4e2d}\u{1F600}\u{e9}\u{4e2d}\u{1F600}\u{e9}\u{4e2d}\u{1F600}\u{e9}\u{4e2d}\u{1F600}\u{e9}\u{4e2d}\u{1F600}\u{e9}\u{4e2d}\u{1F600}\u{e9}\u{4e2d}\u{1F600}",
   "=!!p://h/p#i", "http://[::1", "#", " ", "\u{e9}\u{4e2d}", "0", "true", "a b:c", "xxxxxxxxxxxxxxxxxxxxxxxxxxxxxxxxxxxxxxxxxxxxxxxxxxxxxxxxxxxxxxxxxxxxxxxxxxxxxxxxxxxxxxxxxxxxxxxxxxxxxxxxxxxxxxxxxxxxxxxxxxxxxxxxxxxxxxxxxxxxxxxxxxxxxxxxxxxxxxxxxxxxxxxxxxxxxxxxxxxxxxxxxxxxxxxxxxxxxxxxxxxxxxxxxxxxxxxxxxxxxxxxxxxxxxxxxxxxxxxxxxxxxxxxxxxxxxxxxxxxxxxxxxxx"];
+const SOUPS_PER_TEXT: usize = 12;
 const ODD_DIAGRAM_VALUES: [&str; 5] = ["\u{e9}\u{4e2d}\u{1F600}\u{e9}\u{4e2d}\u{1F600}\u{e9}\u{4e2d}\u{1F600}\u{e9}\u{4e2d}\u{1F600}\u{e9}\u{4e2d}\u{1F600}", " ", "NaN", "-1e999", "1,5"];
-const ODD_TEXTS: [&str; 29] = [
+const ODD_TEXTS: [&str; 35] = [
   "\u{e9}\u{4e2d}\u{1F600}\u{e9}\u{4e2d}\u{1F600}\u{e9}\u{4e2d}\u{1F600}\u{e9}\u{4e2d}\u{1F600}\u{e9}\u{4e2d}\u{1F600}\u{e9}\u{4e2d}\u{1F600}\u{e9}\u{4e2d}\u{1F600}\u{e9}\u{4e2d}\u{1F600}\u{e9}\u{4e2d}\u{1F600}\u{e9}\u{4e2d}\u{1F600}\u{e9}\u{4e2d}\u{1F600}\u{e9}\u{4e2d}\u{1F600}\u{e9}\u{4e2d}\u{1F600}\u{e9}\u{4e2d}\u{1F600}\u{e9}\u{4e2d}\u{1F600}\u{e9}\u{4e2d}\u{1F600}\u{e9}\u{4e2d}\u{1F600}\u{e9}\u{4e2d}\u{1F600}\u{e9}\u{4e2d}\u{1F600}\u{e9}\u{4e2d}\u{1F600}\u{e9}\u{4e2d}\u{1F600}\u{e9}\u{4e2d}\u{1F600}\u{e9}\u{4e2d}\u{1F600}\u{e9}\u{4e2d}\u{1F600}\u{e9}\u{4e2d}\u{1F600}\u{e9}\u{4e2d}\u{1F600}\u{e9}\u{4e2d}\u{1F600}\u{e9}\u{4e2d}\u{1F600}\u{e9}\u{4e2d}\u{1F600}\u{e9}\u{4e2d}\u{1F600}\u{e9}\u{4e2d}\u{1F600}\u{e9}\u{4e2d}\u{1F600}\u{e9}\u{4e2d}\u{1F600}\u{e9}\u{4e2d}\u{1F600}",
   "\"a\u{e9}\u{4e2d}\u{1F600}\u{e9}\u{4e2d}\u{1F600}\u{e9}\u{4e2d}\u{1F600}\u{e9}\u{4e2d}\u{1F600}\u{e9}\u{4e2d}\u{1F600}\u{e9}\u{4e2d}\u{1F600}\u{e9}\u{4e2d}\u{1F600}\u{e9}\u{4e2d}\u{1F600}\u{e9}\u{4e2d}\u{1F600}\u{e9}\u{4e2d}\u{1F600}\u{e9}\u{4e2d}\u{1F600}\u{e9}\u{4e2d}\u{1F600}\u{e9}\u{4e2d}\u{1F600}\u{e9}\u{4e2d}\u{1F600}\u{e9}\u{4e2d}\u{1F600}\u{e9}\u{4e2d}\u{1F600}\u{e9}\u{4e2d}\u{1F600}\u{e9}\u{4e2d}\u{1F600}\u{e9}\u{4e2d}\u{1F600}\u{e9}\u{4e2d}\u{1F600}\u{e9}\u{4e2d}\u{1F600}\u{e9}\u{4e2d}\u{1F600}\u{e9}\u{4e2d}\u{1F600}\u{e9}\u{4e2d}\u{1F600}\u{e9}\u{4e2d}\u{1F600}\u{e9}\u{4e2d}\u{1F600}\u{e9}\u{4e2d}\u{1F600}\u{e9}\u{4e2d}\u{1F600}\u{e9}\u{4e2d}\u{1F600}\u{e9}\u{4e2d}\u{1F600}\u{e9}\u{4e2d}\u{1F600}\u{e9}\u{4e2d}\u{1F600}\u{e9}\u{4e2d}\u{1F600}\u{e9}\u{4e2d}\u{1F600}",
   "(", "1 / 0", "x y z", "[1..", "function() 1", "null", "\"unterminated", "-",
@@ -306,6 +307,8 @@ const ODD_TEXTS: [&str; 29] = [
   "not()", "< ", ",", "/* c */ 1", "// c", "\"\\u12\"", "\"\\", "1e", "123456789012345678901234567890123456789012345678901234567890.5", "@\"x\"", "if then else", "{a:}", ".5.", "\u{1D11E}", "x instance of", "",
   // a name beginning with the part `in` where the variable of an iteration is expected
   "for in+x in [1] return 1", "some in-a in [1] satisfies true", "every in in in satisfies in",
+  // escapes in string literals: lone and paired surrogates, other forms
+  "\"\\uDC00\"", "\"\\uD800\"", "\"\\uD800\\u0041\"", "\"\\uD83D\\uDE00\"", "\"\\U0001F600\"", "\"\\x\\q\\'\"",
 ];
 
 /// All single structural faults of a base text: (kind, index, variant).
@@ -369,6 +372,10 @@ fn single_faults(cat: &Catalogue) -> Vec<(String, usize, usize)> {
       for v in 0..ODD_TEXTS.len() {
         out.push(("odd_text".to_string(), i, v));
       }
+      // token soups of the FEEL vocabulary, different ones at every position
+      for v in 0..SOUPS_PER_TEXT {
+        out.push(("soup_text".to_string(), i, v));
+      }
     }
   }
   out
@@ -429,6 +436,11 @@ fn edits_of(cat: &Catalogue, kind: &str, index: usize, variant: usize) -> Option
     "odd_text" => {
       let x = cat.texts.get(index)?;
       Some((vec![(x.start, x.end, ODD_TEXTS[variant % ODD_TEXTS.len()].replace('<', "&lt;").into_bytes())], format!("{}#text", x.parent_tag)))
+    }
+    "soup_text" => {
+      let x = cat.texts.get(index)?;
+      let soup = crate::jsonval::feel_token_soup((index as u64) * 1_000_003 + variant as u64 * 7919 + cat.text.len() as u64);
+      Some((vec![(x.start, x.end, soup.replace('&', "&amp;").replace('<', "&lt;").into_bytes())], format!("{}#text", x.parent_tag)))
     }
     "delete_text" => {
       let x = cat.texts.get(index)?;
@@ -580,8 +592,8 @@ fn space() -> &'static Space {
   })
 }
 
-const QUICK_SAMPLE_DIVISOR: u64 = 3;
-const QUICK_SEEDED: u64 = 60_000;
+const QUICK_SAMPLE_DIVISOR: u64 = 5;
+const QUICK_SEEDED: u64 = 40_000;
 const QUICK_SYSTEM: u64 = 3_000;
 const THOROUGH_SEEDED: u64 = 1_000_000;
 const THOROUGH_SYSTEM: u64 = 50_000;
@@ -714,6 +726,74 @@ fn input_contexts(defs: &dmntk_model::model::Definitions, base: &str) -> Vec<Fee
   out
 }
 
+/// Is there a cycle in the requirements the model DECLARES (information and knowledge requirements of
+/// decisions and knowledge models; output, encapsulated and input decisions of decision services)?
+/// The simulator's own reading of the model, independent of the check in the code under test.
+fn declared_requirements_cyclic(defs: &dmntk_model::model::Definitions) -> bool {
+  use dmntk_model::model::DmnElement;
+  let mut edges: BTreeMap<String, Vec<String>> = BTreeMap::new();
+  for d in defs.decisions() {
+    if let Some(id) = d.id() {
+      let e = edges.entry(id.clone()).or_default();
+      for r in d.information_requirements() {
+        if let Some(h) = r.required_decision() {
+          e.push(h.into());
+        }
+      }
+      for r in d.knowledge_requirements() {
+        if let Some(h) = r.required_knowledge() {
+          e.push(h.into());
+        }
+      }
+    }
+  }
+  for b in defs.business_knowledge_models() {
+    if let Some(id) = b.id() {
+      let e = edges.entry(id.clone()).or_default();
+      for r in b.knowledge_requirements() {
+        if let Some(h) = r.required_knowledge() {
+          e.push(h.into());
+        }
+      }
+    }
+  }
+  for s in defs.decision_services() {
+    if let Some(id) = s.id() {
+      let e = edges.entry(id.clone()).or_default();
+      for h in s.output_decisions().iter().chain(s.encapsulated_decisions()).chain(s.input_decisions()) {
+        e.push(h.into());
+      }
+    }
+  }
+  // iterative colouring: 1 = on the current path, 2 = finished
+  let mut colour: BTreeMap<&str, u8> = BTreeMap::new();
+  for start in edges.keys() {
+    if colour.contains_key(start.as_str()) {
+      continue;
+    }
+    let mut stack: Vec<(&str, usize)> = vec![(start.as_str(), 0)];
+    colour.insert(start.as_str(), 1);
+    while let Some((node, next)) = stack.pop() {
+      let succ = edges.get(node).map(|v| v.as_slice()).unwrap_or(&[]);
+      if next < succ.len() {
+        stack.push((node, next + 1));
+        let t = succ[next].as_str();
+        match colour.get(t) {
+          Some(1) => return true,
+          Some(_) => {}
+          None => {
+            colour.insert(t, 1);
+            stack.push((t, 0));
+          }
+        }
+      } else {
+        colour.insert(node, 2);
+      }
+    }
+  }
+  false
+}
+
 fn invocable_names(defs: &dmntk_model::model::Definitions) -> Vec<String> {
   let mut names: Vec<String> = vec![];
   for d in defs.decisions() {
@@ -765,6 +845,18 @@ fn direct_path(text: &str, base: &str, desc: &str, only: Option<(&str, usize)>, 
       if r.is_err() {
         let rec = take_last_panic();
         if rec.contains(crate::simrt::RECURSION_PROBE) {
+          // two different things end here: a FEEL function that reaches itself through names (nothing can
+          // reject that before evaluation: the open known finding), and a cycle in the DECLARED requirements,
+          // which the build has to reject
+          if declared_requirements_cyclic(&defs) {
+            return Err(viol(
+              "unbounded-recursion",
+              "declared-requirement-cycle-not-rejected",
+              2,
+              format!("a model whose declared requirements are cyclic (fault [{}]) is refused or evaluates to null", desc),
+              format!("the evaluator was built and invoking `{}` recurses beyond {} nested function bodies", name, crate::simrt::RECURSION_LIMIT),
+            ));
+          }
           return Err(viol(
             "unbounded-recursion",
             "feel-function-invocation",
@@ -873,7 +965,8 @@ fn system_path(bytes: &[u8], base: &str, desc: &str, c: &mut Counters) -> Result
     crate::driver::mark(&format!("system|http|{}", label));
     match http_call(&mut app, method, &path, ct, body) {
       Err(rec) if rec.contains(crate::simrt::RECURSION_PROBE) => {
-        return Err(viol("unbounded-recursion", "feel-function-invocation", 20 + i as u64, format!("`{}` is answered (model with fault [{}])", label, desc), "function bodies nest deeper than the probe's limit".to_string()));
+        let cyclic = std::str::from_utf8(bytes).ok().and_then(|t| catch_unwind(|| dmntk_model::parse(t)).ok()).and_then(|r| r.ok()).map(|d| declared_requirements_cyclic(&d)).unwrap_or(false);
+        return Err(viol("unbounded-recursion", if cyclic { "declared-requirement-cycle-not-rejected" } else { "feel-function-invocation" }, 20 + i as u64, format!("`{}` is answered (model with fault [{}])", label, desc), "function bodies nest deeper than the probe's limit".to_string()));
       }
       Err(rec) => {
         return Err(viol("no-response", &format!("panic:{}", panic_site(&rec)), 20 + i as u64, format!("`{}` is answered (model with fault [{}])", label, desc), format!("the handler panicked at {}", rec)));
@@ -1109,7 +1202,7 @@ impl Sim for C12 {
     parr(plan, "faults").iter().any(|f| edits_of(&catalogue(pstr(plan, "base")), pstr(f, "kind"), pu64(f, "index") as usize, pu64(f, "variant") as usize).is_none())
   }
   fn rule_text(&self) -> String {
-    "cases = (base model text, fault list): every single structural fault (delete / duplicate / empty / swap an element, delete / empty / swap attribute values, 11 odd values per model attribute (two of them long multi-byte texts) and 5 per diagram attribute, delete / swap text nodes, 29 odd contents per FEEL text and typeRef, retarget every href to a missing element, to its own owner and to each element requiring the owner within 3 steps, retarget item definition typeRefs to their own definition and to their referrers) at every position of every .dmn file under examples/src plus the simulator's models - all of them in the thorough tier, every reference fault plus a seeded one-in-3 stratified sample of the rest in the quick tier - then seeded pairs and storage faults (truncate, lost write, bit/burst flips, dropped/duplicated/swapped 64-byte blocks, foreign block spliced in, invalid UTF-8), then seeded cases through the directory-load and HTTP paths; distinct = distinct faulted texts (hash); non-trivial = the fault changed the text".to_string()
+    "cases = (base model text, fault list): every single structural fault (delete / duplicate / empty / swap an element, delete / empty / swap attribute values, 11 odd values per model attribute (two of them long multi-byte texts) and 5 per diagram attribute, delete / swap text nodes, 35 odd contents and 12 seeded token soups of the FEEL vocabulary per FEEL text and typeRef, retarget every href to a missing element, to its own owner and to each element requiring the owner within 3 steps, retarget item definition typeRefs to their own definition and to their referrers) at every position of every .dmn file under examples/src plus the simulator's models - all of them in the thorough tier, every reference fault plus a seeded one-in-5 stratified sample of the rest in the quick tier - then seeded pairs and storage faults (truncate, lost write, bit/burst flips, dropped/duplicated/swapped 64-byte blocks, foreign block spliced in, invalid UTF-8), then seeded cases through the directory-load and HTTP paths; distinct = distinct faulted texts (hash); non-trivial = the fault changed the text".to_string()
   }
   fn assumptions(&self) -> Vec<String> {
     vec![
